@@ -522,6 +522,9 @@ fn partial_attr(t: &Tlv, st: &mut Strict) -> (Bytes, Vec<Bytes>) {
 #[derive(Clone, Debug, PartialEq, Eq, Hash, Serialize, Deserialize)]
 pub struct ResultSpec {
     pub rc: u32,
+    /// when set, this value is encoded as the result code instead of `rc` (codes that do not fit 32 bits)
+    #[serde(default)]
+    pub rc_wide: Option<u64>,
     pub matched: String,
     pub text: String,
     /// `None` = no referral element; `Some(v)` = `[3]` referral with these URIs
@@ -533,7 +536,7 @@ pub struct ResultSpec {
 
 impl ResultSpec {
     pub fn simple(rc: u32, text: &str) -> ResultSpec {
-        ResultSpec { rc, matched: String::new(), text: text.to_string(), refs: None, sasl_creds: None, exop_name: None, exop_val: None }
+        ResultSpec { rc, rc_wide: None, matched: String::new(), text: text.to_string(), refs: None, sasl_creds: None, exop_name: None, exop_val: None }
     }
 }
 
@@ -576,7 +579,7 @@ pub fn encode_controls(cs: &[Ctl]) -> Tlv {
 
 pub fn result_tlv(tag: u32, r: &ResultSpec) -> Tlv {
     let mut v = vec![
-        Tlv::enumerated(r.rc as i64),
+        Tlv::enumerated(r.rc_wide.map(|w| w.min(i64::MAX as u64) as i64).unwrap_or(r.rc as i64)),
         Tlv::octets(r.matched.as_bytes()),
         Tlv::octets(r.text.as_bytes()),
     ];
